@@ -1,7 +1,7 @@
 (* Props/C07.v — the demes always form a well-formed tree of the configured height (structure part; the seed clauses are
    decided on the candidate data by the harness and by C10's filter theorems). *)
 From Coq Require Import List Bool Arith Lia.
-From HV Require Import Ord Sprout Tree TreeLemmas TreeInv TreeRun.
+From HV Require Import Ord Sprout Tree TreeLemmas TreeInv TreeRun TreeIds Hist HistFacts.
 Import ListNotations.
 
 (* demes are numbered in creation order; deme 0 is the root.  In every reachable state: at least the root exists; every
@@ -44,5 +44,24 @@ Proof.
 Qed.
 Print Assumptions C07_new_demes.
 
-Example C07_example : exists s, ex_final = Some s /\ map d_par (demes s) = [None; Some 0; Some 0] /\ map d_lvl (demes s) = [0; 1; 1] /\ map d_started (demes s) = [0; 1; 1].
+(* ids are unique: _next_child_id names a child after its parent's id and the number of demes already on the child's level
+   (did = that path of numbers); two demes with the same id are the same deme; the id names the level and the parent *)
+Theorem C07_ids_unique c n0 s i j : 1 <= height c -> reach c n0 s -> i < length (demes s) -> j < length (demes s) -> did (demes s) i = did (demes s) j -> i = j.
+Proof. exact (reachable_ids_unique c n0 s i j). Qed.
+Print Assumptions C07_ids_unique.
+Theorem C07_id_names_level_and_parent c s i p : WFT c s -> i < length (demes s) -> d_par (dnth i (demes s)) = Some p ->
+  length (did (demes s) i) = d_lvl (dnth i (demes s)) /\ exists k, did (demes s) i = did (demes s) p ++ [k].
+Proof. intros W. exact (id_names_level_and_parent c s W i p). Qed.
+Print Assumptions C07_id_names_level_and_parent.
+
+(* the seed of a new deme is an individual of the named generation of its parent: the parent's CURRENT population whenever the
+   event is strict (every generator but the local-method one); history machine *)
+Theorem C07_seed_from_parent s fixed p gi pos strict s' : hstep s (HBegin fixed (Some (p, gi, pos)) strict) = Some s' ->
+  exists pd g t sd, nth_error (hdemes s) p = Some pd /\ nth_error (hgens pd) gi = Some (g, t) /\ nth_error g pos = Some sd /\
+    (strict = true -> S gi = length (hgens pd)) /\
+    nth_error (hdemes s') (length (hdemes s)) = Some {| hgens := []; hpend := []; hfixed := fixed; hseed := Some sd; hpar := Some p |}.
+Proof. exact (seed_from_parent s fixed p gi pos strict s'). Qed.
+Print Assumptions C07_seed_from_parent.
+
+Example C07_example : exists s, ex_final = Some s /\ map d_par (demes s) = [None; Some 0; Some 0] /\ map d_lvl (demes s) = [0; 1; 1] /\ map d_started (demes s) = [0; 1; 1] /\ map (did (demes s)) [0; 1; 2] = [[]; [0]; [1]].
 Proof. vm_compute. eexists. split; [reflexivity|]. repeat split. Qed.
